@@ -516,15 +516,29 @@ def _single(ctx, case, nc, wd):
     opts = make_opts(rng)
     feats = case["feats"]
     text = M.render_text(M.gen_text(rng, opts, rng.randint(1, 15)))
-    src = os.path.join(wd, rng.choice(["in file.cfg", "ïn.cfg", "in"]))
+    # a single input FILE is processed whatever its own name is (the dot-file rule is about what a directory walk skips)
+    src = os.path.join(wd, rng.choice(["in file.cfg", "ïn.cfg", "in", ".running-config", ".in.cfg"]))
     with open(src, "wb") as fh:
         fh.write(text.encode("utf-8"))
     sub = rng.choice(["", "newdir", "a/b"])
     outname = rng.choice(["out.cfg", "o ut", ".hidden-out"])
     dst = os.path.join(wd, "o", sub, outname)
     os.makedirs(os.path.join(wd, "o"))
+    bare = rng.random() < 0.35
+    if bare:
+        # names given relative to the working directory, the output as a bare file name (no directory part at all)
+        dst = os.path.join(wd, outname)
     before = fsmon.snapshot(wd)
-    w, errs, exc = run_files(nc, src, dst, opts, feats)
+    if bare:
+        old = os.getcwd()
+        os.chdir(wd)
+        try:
+            w, errs, exc = run_files(nc, os.path.basename(src), outname, opts, feats)
+        finally:
+            os.chdir(old)
+        ctx.count("single_file_runs_with_bare_relative_names")
+    else:
+        w, errs, exc = run_files(nc, src, dst, opts, feats)
     ctx.ev()
     ctx.count("single_file_runs")
     after = fsmon.snapshot(wd)
